@@ -230,6 +230,13 @@ def run_task(param, acc):
             record(acc, pairs, run_one(pairs), True)
             pairs = ((KEYS[0], b),)
             record(acc, pairs, run_one(pairs, before=((KEYS[0], a),)), True, before=((KEYS[0], a),))
+        # text and non-string values mixed in one call, in every position of 2 and 3 pairs
+        for v in (9050, True, 0):
+            for t in SUBSET:
+                for pairs in (((KEYS[0], v), (KEYS[1], t)), ((KEYS[0], t), (KEYS[1], v)),
+                              ((KEYS[0], v), (KEYS[1], t), (KEYS[2 % len(KEYS)] + 'x', t)), ((KEYS[0], t), (KEYS[1], v), (KEYS[2 % len(KEYS)] + 'x', t)),
+                              ((KEYS[0], v), (KEYS[1], v), (KEYS[2 % len(KEYS)] + 'x', t))):
+                    record(acc, pairs, run_one(pairs), True)
 
 
 def replay(p):
